@@ -167,16 +167,19 @@ C14_NoChangeMigrates == (pos > Len(lines) /\ lines # <<>> /\ expected # None) =>
 
 \* C15 (team summary / code age part): when the log has been consumed the summaries' table holds exactly the files
 \* that still exist, each with the commits and authors that touched it through its renames and its first-commit
-\* date - compared with GitRef!Final over the history (paths deleted and re-created are free there)
+\* date - compared with GitRef!Final over the history (a re-created path may count from either creation)
 C15_TableMatchesHistory ==
   Finished =>
     LET fin == Final([history |-> hist])
-        judged == {p \in DOMAIN fin.live : p \notin fin.gone}
+        judged == {p \in DOMAIN fin.live : p \notin fin.odd}
     IN  /\ \A p \in judged : /\ p \in DOMAIN infos
-                             /\ Cardinality(infos[p].revs) = Cardinality(fin.live[p].revs)
-                             /\ infos[p].authors = fin.live[p].authors
-                             /\ infos[p].first = fin.live[p].first
-        /\ \A p \in DOMAIN infos : p \in DOMAIN fin.live \/ p \in fin.gone
+                             /\ \/ /\ Cardinality(infos[p].revs) = Cardinality(fin.live[p].revs)
+                                   /\ infos[p].authors = fin.live[p].authors
+                                   /\ infos[p].first = fin.live[p].first
+                                \/ /\ Cardinality(infos[p].revs) = Cardinality(fin.live[p].arevs)
+                                   /\ infos[p].authors = fin.live[p].aauthors
+                                   /\ infos[p].first = fin.live[p].afirst
+        /\ \A p \in DOMAIN infos : p \in DOMAIN fin.live \/ p \in fin.odd
 
 Emit == (pos > Len(lines) /\ lines # <<>>) => PrintT(<<"CASE", ToJson([history |-> hist])>>)
 =============================================================================
